@@ -57,6 +57,15 @@ void verify_archive(const std::string& out, const std::vector<InFile>& fs, Tape&
 void cleanup_inputs(const std::vector<InFile>& fs) { for (auto& f : fs) remove((f.dir + f.name).c_str()); }
 
 void success_case(Tape& t, Stats& st, std::vector<InFile> fs, bool sample) {
+	// one case in eight: an input is named like a temporary / backup companion of the output (out.vol.tmp, out.vol.bak, out.vol~ ...) and sits
+	// next to it: another file, so a legal input, and it must come through unharmed like any other
+	int companion = -1; std::string stem;
+	if (!fs.empty() && t.below(8) == 0) {
+		size_t k = t.below(fs.size()); stem = t.pick<std::string>({"out.vol", "maps.vol", "a", "OUT.VOL"});
+		std::string nn = stem + t.pick<std::string>({".tmp", ".tmp", ".bak", ".new", "~", ".part", ".tmp~", ".0", ".temp", ".swp", ".lock", ".old", "$", ".TMP"});
+		bool ok = true; for (auto& g : fs) if (ieq(g.name, nn) || ieq(g.name, stem)) ok = false;
+		if (ok) { fs[k].name = nn; companion = int(k); }
+	}
 	materialise(fs, t);
 	// listing order: tape-chosen permutation
 	std::vector<std::string> paths;
@@ -79,6 +88,7 @@ void success_case(Tape& t, Stats& st, std::vector<InFile> fs, bool sample) {
 			if (ok) { out = cand; prefixOut = true; pre = false; st.cls("output_is_prefix_of_an_input_name"); }
 		}
 	}
+	if (companion >= 0 && !prefixOut) { out = fs[size_t(companion)].dir + stem; st.cls("input_is_a_companion_name_of_the_output"); }
 	remove(out.c_str());
 	if (pre) write_file(out, std::vector<uint8_t>(t.flag() ? 37 : 70000, 0x77));   // shorter or LONGER than the archive that replaces it
 	if (sample && st.want_sample()) st.sample(render(fs, out));
